@@ -88,7 +88,13 @@ lazy_static! {
 
         dt.iter().map(|x| x.to_diacritic()).collect()
     };
-    static ref CARDINALS_VEC: Vec<String> = CARDINALS_MAP.iter().map(|(k,_)| k.clone()).collect();
+    static ref CARDINALS_VEC: Vec<String> = {
+        // HashMap iteration order differs per process (and per initialising thread);
+        // sort so that rendering tie-breaks are the same everywhere
+        let mut v: Vec<String> = CARDINALS_MAP.keys().cloned().collect();
+        v.sort();
+        v
+    };
     static ref CARDINALS_TRIE: Trie = {
         let mut m = Trie::new();
         CARDINALS_MAP.iter().for_each(|(k,_)| m.insert(k.as_str()));
